@@ -33,6 +33,7 @@ def plan(tier, seed):
     for y in (2021, 2022, 2023):
         for g in ([fams[0:4], fams[4:8], fams[8:]] if tier == 'quick' else [[f] for f in fams]):
             sp.append({'year': y, 'families': g, 'n': n})
+        sp.append({'kind': 'edges', 'year': y})
     return sp
 
 
@@ -52,10 +53,51 @@ def fnum(x):
     return float(x) if x.strip() else 0.0
 
 
+def run_edges(spec, tier, seed, res):
+    """Wage increments that cross a step of a status-indexed table: the NC child
+    deduction bands (a dollar more of AGI may only lower the deduction) and the
+    federal bracket / table rows are crossed by +50 from just below each edge."""
+    from hv import scen, realwork
+    from hv import statutory as st
+    year = spec['year']
+    f1098 = [{'box_1': 3000.0, 'box_6': 0.0, 'box_4': 0.0, 'box_5': 0.0}]
+    for status in ('S', 'MFJ', 'MFS', 'HOH'):
+        for edge, amt in st.NC_CHILD[year][status]:
+            for nkids in (1, 3):
+                base_p = scen.plain_persona(year, status, edge - 20, key=f'edge:{status}:{edge}', deps_ctc=nkids, nc=True, n_1098=1, f1098=f1098)
+                b = scen.solve_persona(base_p)
+                if b.exc is not None or b.ret is not True:
+                    res.count('edge_bases_unsolved')
+                    continue
+                ans = dict(base_p.answers)
+                bt = scen.typed_solution(b)
+                for inc in (50, 250):
+                    a2 = dict(ans)
+                    for box in ('box_1', 'box_3', 'box_5', 'box_16'):
+                        k_ = f'w-2:0.{box}'
+                        if k_ in a2:
+                            a2[k_] = f'{fnum(a2[k_]) + inc:.2f}'
+                    o = solve_file(year, base_p.forms(), a2)
+                    res.evaluations += 1
+                    if o.exc is not None or o.ret is not True:
+                        continue
+                    t = typed(o)
+                    res.count('pairs_compared')
+                    res.count('pairs_edge')
+                    res.distinct.add(f'{year}|edge|{status}|{edge}')
+                    for line, name in (('nc_d-400.17', 'NC income tax (D-400 line 17)'), ('1040.24', 'total tax (line 24)')):
+                        if line in t and line in bt and t[line] < bt[line] - 0.51:
+                            res.violation(f'C16|{year}|wages+|band-edge|{line}', f'{year} {status} {nkids} children: wages {edge - 20} -> {edge - 20 + inc} lowered {name} from {bt[line]} to {t[line]}',
+                                          {'engine': 'scen', 'persona': base_p.describe(), 'increment': inc, 'shard': spec})
+
+
 def run_shard(spec, tier, seed):
     from hv import scen, drive, realwork
     res = Result()
     year = spec['year']
+    if spec.get('kind') == 'edges':
+        run_edges(spec, tier, seed, res)
+        return res
     rng = rng_for('C16', seed, spec)
     for fam in spec['families']:
         for p in scen.personas(seed, year, fam, spec['n']):
@@ -146,6 +188,8 @@ def run_shard(spec, tier, seed):
                     def chk(t, inc=inc):
                         if t.get('1040.24', 0.0) < base.get('1040.24', 0.0) - 0.011:
                             return f'wages +{inc} lowered total tax (line 24) from {base.get("1040.24")} to {t.get("1040.24")}'
+                        if 'nc_d-400.17' in t and 'nc_d-400.17' in base and t['nc_d-400.17'] < base['nc_d-400.17'] - 0.51:
+                            return f'wages +{inc} lowered the NC income tax (D-400 line 17) from {base["nc_d-400.17"]} to {t["nc_d-400.17"]}'
                         return None
                     compare(f'wages+:{inc}', ans, chk, 'w-2.box_1')
             # ---- (b') a larger deductible expense never raises total tax
@@ -161,6 +205,8 @@ def run_shard(spec, tier, seed):
                 def chk(t, d=d, inc=inc):
                     if t.get('1040.24', 0.0) > base.get('1040.24', 0.0) + 0.011:
                         return f'{d} +{inc} raised total tax (line 24) from {base.get("1040.24")} to {t.get("1040.24")}'
+                    if 'nc_d-400.17' in t and 'nc_d-400.17' in base and t['nc_d-400.17'] > base['nc_d-400.17'] + 0.51:
+                        return f'{d} +{inc} raised the NC income tax (D-400 line 17) from {base["nc_d-400.17"]} to {t["nc_d-400.17"]}'
                     return None
                 mech = d
                 # mechanism of a known finding: in 2021 the larger expense switches the return to itemizing, which
